@@ -5,7 +5,7 @@
 use serde::{Deserialize, Serialize};
 use serde_json::{json, Value};
 use stateright::*;
-use std::collections::BTreeSet;
+use std::collections::{BTreeSet, HashMap};
 use std::io::{BufRead, Write};
 use std::panic::{catch_unwind, AssertUnwindSafe};
 use std::sync::atomic::{AtomicU64, Ordering};
@@ -339,6 +339,9 @@ pub struct Cfg {
     /// the run is expected to be ended by its timeout (echoed for the judge)
     #[serde(default)]
     pub expect_timeout: bool,
+    /// after the run: also take Checker::report (WriteReporter) and discovery_classification
+    #[serde(default)]
+    pub report: bool,
 }
 
 pub fn finish_of(f: &Finish) -> HasDiscoveries {
@@ -451,6 +454,7 @@ struct Obs {
     discoveries: Vec<Value>,
     disc_panicked: bool,
     assert_panicked: bool,
+    report: Value,
     handles_left: usize,
     wall_ms: u128,
 }
@@ -533,6 +537,54 @@ where
         }
     };
     let assert_panicked = catch_unwind(AssertUnwindSafe(|| c.assert_properties())).is_err();
+    // what Checker::report writes once the check is done (the textual report users read), projected: the "Done." line,
+    // and per discovery its name, classification and the nodes denoted by its fingerprint path
+    let mut report = json!({"present": false});
+    if cfg.report && joined && is_done && !disc_panicked {
+        let class_of: Vec<Value> = model
+            .g
+            .props
+            .iter()
+            .map(|p| {
+                let cl = catch_unwind(AssertUnwindSafe(|| format!("{}", c.discovery_classification(&p.name)))).unwrap_or_else(|_| "panic".into());
+                json!({"name": p.name, "classification": cl})
+            })
+            .collect();
+        let mut buf: Vec<u8> = vec![];
+        let r = catch_unwind(AssertUnwindSafe(|| c.report(&mut stateright::report::WriteReporter::new(&mut buf))));
+        let text = String::from_utf8_lossy(&buf).to_string();
+        let mut rev: HashMap<String, u32> = HashMap::new();
+        for n in 1..=model.g.n {
+            if let Some(fp) = fp_of_node(model, n) {
+                rev.insert(fp.to_string(), n);
+            }
+        }
+        let num = |line: &str, key: &str| -> i64 {
+            line.split(key).nth(1).map(|t| t.chars().take_while(|c| c.is_ascii_digit()).collect::<String>()).and_then(|t| t.parse().ok()).unwrap_or(-1)
+        };
+        let mut done_lines = vec![];
+        let mut items = vec![];
+        let mut cur: Option<(String, String)> = None;
+        for line in text.lines() {
+            if line.starts_with("Done. ") {
+                done_lines.push(json!({"states": num(line, "states="), "unique": num(line, "unique="), "depth": num(line, "depth=")}));
+            } else if let Some(rest) = line.strip_prefix("Discovered \"") {
+                let name = rest.split('"').next().unwrap_or("").to_string();
+                let class = rest.split('"').nth(1).unwrap_or("").split_whitespace().next().unwrap_or("").to_string();
+                cur = Some((name, class));
+            } else if let Some(rest) = line.strip_prefix("Fingerprint path: ") {
+                let nodes: Vec<i64> = rest.trim().split('/').map(|f| rev.get(f).map(|n| *n as i64).unwrap_or(0)).collect();
+                let (name, class) = cur.take().unwrap_or_default();
+                items.push(json!({"name": name, "classification": class, "nodes": nodes}));
+            }
+        }
+        report = json!({"present": true, "panicked": r.is_err(), "done_lines": done_lines, "items": items, "class_of": class_of});
+        match r {
+            Ok(c2) => drop(c2),
+            Err(_) => {}
+        }
+        return Obs { joined, join_panicked, is_done, unique, total, max_depth, discoveries, disc_panicked, assert_panicked, report, handles_left: left, wall_ms };
+    }
     if !joined {
         // leak the checker too: dropping it could block or hide the hang
         std::mem::forget(c);
@@ -547,6 +599,7 @@ where
         discoveries,
         disc_panicked,
         assert_panicked,
+        report,
         handles_left: left,
         wall_ms,
     }
@@ -650,7 +703,7 @@ pub fn run_one(g: &Graph, cfg: &Cfg) -> Value {
             "discoveries": o.discoveries, "disc_panicked": o.disc_panicked,
             "assert_panicked": o.assert_panicked, "handles_left": o.handles_left,
             "wall_ms": o.wall_ms as u64, "spawn_panicked": false, "evals": model.evals.load(Ordering::SeqCst),
-            "evals_after_poison": model.after_poison.load(Ordering::SeqCst)}),
+            "evals_after_poison": model.after_poison.load(Ordering::SeqCst), "report": o.report}),
         None => json!({
             "joined": false, "join_panicked": false, "is_done": false, "unique": 0, "total": 0,
             "max_depth": 0, "discoveries": [], "disc_panicked": false, "assert_panicked": false,
